@@ -447,7 +447,9 @@ def gen_valid(rng, layout=None, small=False):
 MALFORMATIONS = {
     # name -> (layouts it applies to, is it one of the classes the property text lists)
     "dup-visit": ("vjc", True), "dup-visit-after-rounding": ("vjc", True), "nan-age": ("vjc", True), "inf-age": ("vjc", True),
-    "neg-inf-age": ("vjc", True), "inf-value": ("vjc", True), "non-numeric-value": ("vjc", True), "non-numeric-age": ("vjc", True),
+    "neg-inf-age": ("vjc", True), "inf-value": ("vjc", True),
+    # +inf in one cell and -inf in another (a sum-based "is there an infinity" screen sees nan and lets both through)
+    "inf-values-both-signs": ("vjc", True), "non-numeric-value": ("vjc", True), "non-numeric-age": ("vjc", True),
     "empty-id": ("vjce", True), "negative-id": ("vjce", True), "float-id": ("vjce", True), "missing-id": ("vjce", True),
     "mixed-id": ("vjce", True), "bool-id": ("vjce", True),
     "no-visit-left": ("v", False), "empty-table": ("vjce", False), "dup-id-event-table": ("e", True),
@@ -507,6 +509,13 @@ def malform(rng, spec, kind):
         s["time_dtype"] = "float"
     elif kind == "inf-value":
         s["vals"][k][rng.randrange(s["nfeat"])] = rng.choice([INF, -INF])
+        s["val_dtypes"] = ["float"] * s["nfeat"]
+    elif kind == "inf-values-both-signs":
+        if len(s["vals"]) < 2:
+            return None
+        k2 = rng.choice([i for i in range(len(s["vals"])) if i != k])
+        s["vals"][k][rng.randrange(s["nfeat"])] = INF
+        s["vals"][k2][rng.randrange(s["nfeat"])] = -INF
         s["val_dtypes"] = ["float"] * s["nfeat"]
     elif kind == "non-numeric-value":
         s["val_dtypes"] = list(s.get("val_dtypes", ["float"] * s["nfeat"]))
